@@ -13,6 +13,18 @@ for tu, f in FILES.items():
         what="signed distance modulo 2^bits in [-2^(bits-1), 2^(bits-1)), 0 when order hints are off, "
              "no side effect; all 1<=bits<=8, all a,b in [0,2^bits)"))
 
+for _h in (0, 1000, 2041, 2044, 2045, 2046, 2047):
+    UNITS.append(Unit(
+        uid="U22.2.count_tu.h%d" % _h, prop="C22", harness="harness/c02_tu.c", entry="h_count", mode="plain",
+        functions=["count_frames_in_next_tu", "get_reorder_queue_entry", "get_reorder_queue_pos"],
+        keep_bodies=["count_frames_in_next_tu"], defines=["TU_N=8", "HEAD_CONST=%d" % _h],
+        thorough_defines=["TU_N=12", "HEAD_CONST=%d" % _h], canaries=3, min_obligations=40, timeout=600, mem_gb=16,
+        unwind=14, backend="cadical", cover_functions=["count_frames_in_next_tu"],
+        cover_allow=[r"^return i;$|while \(i <"], kind="bounded",
+        bound="temporal unit of at most 8 frames quick / 12 thorough; queue head %d of 2048 (heads 0, 1000, 2041, "
+              "2044..2047 each have a unit, so the wrap falls at every position inside the unit)" % _h,
+        what="reorder-queue index arithmetic across the physical end of the 2048-slot queue: the scan for the frame that closes a temporal unit wraps around (same harness as U02.5)"))
+
 META = {"C22": {
     "level": "proof",
     "explanation": "Each order-hint distance helper is proved, for every order_hint_bits in 1..8 and every pair of "
